@@ -1302,9 +1302,10 @@ def replay(ctx, data):
         print('FAILED monitors:', bad)
         return False
     print('base model accepts the trace:', 'not applicable (delayed creation is not in M1)' if case.get('c11d') else
+          'not applicable (a run stopped by SystemExit / KeyboardInterrupt is not in M1)' if abort_fired(obs) else
           ba.get('accepted') if isinstance(ba, dict) else ba)
     if lean is not None:
         print('extended model teardown log:', a.get('model_td'), ' main dies:', a.get('model_crash'))
-    if data.get('failed') == 'correspondence' and not case.get('c11d') and isinstance(ba, dict) and not ba.get('accepted') and not ba.get('skipped'):
+    if data.get('failed') == 'correspondence' and not case.get('c11d') and not abort_fired(obs) and isinstance(ba, dict) and not ba.get('accepted') and not ba.get('skipped'):
         return False
     return True
